@@ -58,3 +58,13 @@ Qed.
 
 Lemma probe_step_in_range : forall size h, 3 <= size -> 0 <= h -> 1 <= ht_step_c size h <= size - 2.
 Proof. intros size h Hs Hh. unfold ht_step_c. lia. Qed.
+
+(* the unwinding protocol of yaep_parse found in the source passes the check of all raising points:
+   flags are volatile, nothing that allocates runs before the handler is installed *)
+From YV Require Import Faults.
+Lemma parse_protocol_ok : protocol_ok parse_prologue parse_handler parse_body parse_flags_volatile = true.
+Proof. vm_compute. reflexivity. Qed.
+Lemma parse_flags_are_volatile : parse_flags_volatile = true.
+Proof. reflexivity. Qed.
+Lemma parse_prologue_does_not_allocate : parse_prologue_allocating_calls = nil.
+Proof. reflexivity. Qed.
